@@ -143,7 +143,7 @@ func equalCase(e *Emitter, a, b cfgSpec, kind string) {
 	e.Stats["gen:"+kind]++
 	e.Stats[fmt.Sprintf("out:%v", res)]++
 	e.Case("equal "+a.enc()+" "+b.enc(), strconv.FormatBool(res))
-	e.Case("c13holds "+a.enc()+" "+b.enc()+" "+strconv.FormatBool(res), "true")
+	e.Case("c13equalholds "+a.enc()+" "+b.enc()+" "+strconv.FormatBool(res), "true")
 	if kind != "same" {
 		e.Nontrivial(a.enc() + " " + b.enc())
 	}
